@@ -1229,6 +1229,13 @@ class ClassicChannel(utils.EventEmitter):
 
     def on_pdu(self, pdu: bytes) -> None:
         if self.fcs_enabled:
+            # Check the FCS (computed over the basic L2CAP header and the payload).
+            header = struct.pack('<HH', len(pdu), self.source_cid)
+            if len(pdu) < 2 or utils.crc_16(header + pdu[:-2]) != int.from_bytes(
+                pdu[-2:], 'little'
+            ):
+                logger.warning(color('invalid FCS, PDU discarded', 'red'))
+                return
             # Drop FCS.
             pdu = pdu[:-2]
         self.processor.on_pdu(pdu)
